@@ -5,8 +5,13 @@ root = os.path.join(os.path.dirname(os.path.dirname(os.path.abspath(__file__))),
 rows = []
 for d in sorted(glob.glob(os.path.join(root, 'C*'))):
     meta = json.load(open(os.path.join(d, 'meta.json')))
-    r1 = json.load(open(os.path.join(d, 'result.json'))) if os.path.exists(os.path.join(d, 'result.json')) else None
-    r2 = json.load(open(os.path.join(d, 'result2.json'))) if os.path.exists(os.path.join(d, 'result2.json')) else None
+    def first_of(*names):
+        for nm in names:
+            if os.path.exists(os.path.join(d, nm)): return json.load(open(os.path.join(d, nm)))
+        return None
+    # first pass = the checks as committed when the seed was delivered; second = after strengthening (per round)
+    r1 = first_of('result_r4_first.json', 'result_r6_first.json', 'result.json')
+    r2 = first_of('result_r4_second.json', 'result_r6_second.json', 'result2.json')
     r3 = json.load(open(os.path.join(d, 'result3.json'))) if os.path.exists(os.path.join(d, 'result3.json')) else None
     def caught(r): return sorted(p for p, v in (r or {}).get('checks', {}).items() if v['rc'] == 1)
     def line(r):
